@@ -42,7 +42,7 @@ def run(p):
             object.__setattr__(m, "log_metrics", lambda *a, **k: {})
             return m
 
-        if case in ("no", "mean", "exponential", "critic", "rollout_extra", "warmup", "scaled_norm", "scaled_int"):
+        if case in ("no", "mean", "exponential", "critic", "rollout_extra", "warmup", "warmup_done", "scaled_norm", "scaled_int"):
             v = _vec(vals, "v", (B,), eps)
 
             class Critic(torch.nn.Module):
@@ -64,9 +64,12 @@ def run(p):
             elif case == "rollout_extra":
                 base = bl.NoBaseline()
                 batch = TensorDict({"extra": _vec(vals, "extra", (B,), eps, False)}, batch_size=[B])
-            elif case == "warmup":
+            elif case in ("warmup", "warmup_done"):
                 base = bl.WarmupBaseline(bl.CriticBaseline(Critic()), n_epochs=2, warmup_exp_beta=0.8)
                 base.epoch_callback(None, epoch=0)
+                if case == "warmup_done":
+                    for ep in (1, 2, 3):
+                        base.epoch_callback(None, epoch=ep)
             object.__setattr__(model, "baseline", base)
             res = []
             for step in range(steps):
